@@ -510,16 +510,18 @@ func (ex *Executor) assert(st *State, c *Term, label string) {
 		return
 	}
 	if st.model.Eval(c) == 0 {
-		ex.recordViolation(st, label, st.model)
-		// continue with the assertion assumed, if possible
-		ex.flushAsserts(st)
-		f, m := ex.feasible(st, c)
-		if !f {
-			panic(pathEnd{})
+		if rm, real := ex.realModel(st, ex.tt.Not(c), st.model); real {
+			ex.recordViolation(st, label, rm)
+			// continue with the assertion assumed, if possible
+			ex.flushAsserts(st)
+			f, m := ex.feasible(st, c)
+			if !f {
+				panic(pathEnd{})
+			}
+			st.model = m
+			st.addPC(c)
+			return
 		}
-		st.model = m
-		st.addPC(c)
-		return
 	}
 	// defer the query: assertions are discharged in one batch (flushAsserts)
 	st.pending_ = append(st.pending_, pendingAssert{c, label, ex.where(st), ex.stack(st)})
@@ -542,7 +544,12 @@ func (ex *Executor) flushAsserts(st *State) {
 			return
 		}
 		q := append(append([]*Term(nil), st.pc...), ex.tt.Not(conj))
-		switch ex.check("assert", q) {
+		res := ex.check("assert", q)
+		if res == Sat && ex.opt.UFMul && len(ex.tt.ufApps) > 0 {
+			// decide the batch again under the real multiplication
+			res = ex.check("assert-refined", append(q, ex.ufAxioms()...))
+		}
+		switch res {
 		case Unsat:
 			ex.AssertsProved += len(st.pending_)
 			for _, p := range st.pending_ {
